@@ -428,8 +428,18 @@ void run_case(vf::Case& c)
     // and is therefore not counted as distinct at all (conservative)
     fp::cover_block(x.op, x.n, first_hash, c.enumerated ? x.n : 0);
     if (vf::want_sample(x.op)) {
-        vf::sample(x.op, "%s block sign=%d biased-exponent=%u (%s): %llu arguments compared with libm, %llu skipped (result not defined by C)",
-            x.subject, (int)x.sign, x.e, x.blockcls, (unsigned long long)x.n, (unsigned long long)x.skipped);
+        if (c.enumerated) {
+            char lo[96], hi[96];
+            fp::show(lo, sizeof lo, make(x.sign, x.e, x.ranged ? x.lo : (x.list.empty() ? U(0) : x.list.front())));
+            fp::show(hi, sizeof hi, make(x.sign, x.e, x.ranged ? x.hi - 1 : (x.list.empty() ? U(0) : x.list.back())));
+            vf::sample(x.op, "%s block sign=%d biased-exponent=%u (%s), x from %s to %s: %llu arguments compared with libm, %llu skipped (result not defined by C)",
+                x.subject, (int)x.sign, x.e, x.blockcls, lo, hi, (unsigned long long)x.n, (unsigned long long)x.skipped);
+        } else {
+            char a[96];
+            fp::show(a, sizeof a, fp::from_bits<T>(x.list.empty() ? U(0) : x.list[0]));
+            vf::sample(x.op, "%s seeded random bit patterns (first: %s): %llu compared with libm, %llu skipped (result not defined by C)",
+                x.subject, a, (unsigned long long)x.n, (unsigned long long)x.skipped);
+        }
     }
     if (x.maxulp) {
         char a[96];
